@@ -203,9 +203,10 @@ static void cells(const pkcfg *c) {
 
 /* sorted layer: one step on an array of `len` elements held in `mem` */
 #define SEQCAP 10
+static uint32_t g_seqcap = SEQCAP; /* fill walks raise it to the configuration's declared maximum */
 static void seq_step(const pkcfg *c, uint8_t *mem, size_t membytes, uint32_t *len,
                      const char *op, uint64_t a, uint64_t v) {
-    uint8_t pre[256];
+    static uint8_t pre[2048];
     memcpy(pre, mem, membytes);
     long ret = 0, ret2 = 0;
     uint32_t oldlen = *len;
@@ -217,7 +218,7 @@ static void seq_step(const pkcfg *c, uint8_t *mem, size_t membytes, uint32_t *le
     size_t lb = ((size_t)*len * (size_t)c->bits + 7) / 8;
     int viab = (++stepno % 2) && (lb * 8) / (size_t)c->bits == *len && !strstr(c->variant, "max");
     if (!strcmp(op, "InsertSorted")) {
-        if (*len >= SEQCAP - 1) {
+        if (*len >= g_seqcap - 1) {
             return;
         }
         f = viab ? GUARDED(c->insert_sorted_b(mem, lb, v)) : GUARDED(c->insert_sorted(mem, *len, v));
@@ -310,6 +311,41 @@ static void run_pwalk(const pkcfg *c, char *spec, int mode) {
     gb_free(&gm);
 }
 
+/* arrays filled to exactly the declared maximum of the instantiation: every
+ * length argument up to and including the limit must be representable */
+static void fill_walk(const pkcfg *c) {
+    const char *m = strstr(c->variant, "max");
+    unsigned long lim = m ? strtoul(m + 3, NULL, 10) : 0;
+    if (!m || lim == 0 || lim > 300 || c->variant != m) {
+        return;
+    }
+    size_t sb = (size_t)c->slot / 8;
+    size_t mb = ((size_t)lim * (size_t)c->bits + (size_t)c->slot - 1) / (size_t)c->slot * sb + sb;
+    gbuf gm = gb_alloc(mb);
+    uint8_t *mem = gm.p;
+    fill(mem, mb, 2);
+    uint32_t len = 0;
+    uint64_t ones = (1ULL << c->bits) - 1;
+    ev_begin("PkNew");
+    ev_str("cfg", c->name);
+    ev_end();
+    g_seqcap = (uint32_t)lim + 1;
+    for (unsigned long i = 0; i < lim; i++) {
+        seq_step(c, mem, mb, &len, "InsertSorted", 0, (i * 37 + 11) & ones);
+    }
+    /* the array is full: queries and removals at the full length */
+    seq_step(c, mem, mb, &len, "Member", 0, (0 * 37 + 11) & ones);
+    seq_step(c, mem, mb, &len, "Member", 0, ((lim - 1) * 37 + 11) & ones);
+    seq_step(c, mem, mb, &len, "Member", 0, 12);
+    seq_step(c, mem, mb, &len, "DeleteMember", 0, (5 * 37 + 11) & ones);
+    seq_step(c, mem, mb, &len, "InsertSorted", 0, 4000);
+    seq_step(c, mem, mb, &len, "DeleteAt", lim - 1, 0);
+    seq_step(c, mem, mb, &len, "InsertAt", 0, 0);
+    seq_step(c, mem, mb, &len, "DeleteMember", 0, 0);
+    g_seqcap = SEQCAP;
+    gb_free(&gm);
+}
+
 static void positional(const pkcfg *c) {
     /* Insert(pos)/Delete(pos) on arbitrary (unsorted) arrays */
     size_t mb = seq_bytes(c);
@@ -354,6 +390,7 @@ int main(int argc, char **argv) {
         rng_seed(env_seed() * 31 + (uint64_t)k);
         cells(&PK[k]);
         far_cells(&PK[k]);
+        fill_walk(&PK[k]);
         positional(&PK[k]);
     }
     FILE *f = fopen(argv[1], "r");
